@@ -5,6 +5,8 @@
   request:  replayA <cfg tokens> ev=<e1;e2;…>
   answer:   ok <n>                                  every event accepted, every observed reaction = prescribed
             reject <i> <component> <detail>         first difference (i = index of the event)
+  request:  timing <cfg tokens> ev=<e1;e2;…>        (layer-B events, as for replayB)
+  answer:   ok plain=<0|1> acc=<0|1> B=<j>:<t>,… E=<j>:<t>,…      see `timingLine`
 -/
 import AJ.Model.Run
 import AJ.Model.Lax
@@ -389,7 +391,7 @@ def parseDiag (s : String) : Option (List (Nat × Bool × Bool)) :=
     | [k, a, b] => do pure (← k.toNat?, a = "1", b = "1")
     | _ => none
 
-def isDynCmd (cmd : String) : Bool := cmd = "replayA" || cmd = "replayB" || cmd = "flatreq"
+def isDynCmd (cmd : String) : Bool := cmd = "replayA" || cmd = "replayB" || cmd = "flatreq" || cmd = "timing"
 
 /-- `flatreq cfg…`: the requirements of every atomic job in the flattened graph (`AJ.Flat.flatReq`), or `not-flattenable`
     when a nested scheduler is empty -/
@@ -397,6 +399,19 @@ def flatReqLine (c : Cfg) : String :=
   if !AJ.Flat.noEmptyNested c then "not-flattenable" else
   "ok " ++ ";".intercalate (((List.range c.n).filter fun j => 0 < j && !c.isSched j).map fun j =>
     toString j ++ ":" ++ showNats ((AJ.Flat.flatReq c c.n j).eraseDups))
+
+/-- `timing cfg… ev=…` (the events of layer B, as for `replayB`; the observations after `~` are ignored): the instants
+    read off the history by `AJ.Flat.firstNow` — those of `Proofs.FlatC.flatten_same_times` —:
+    `ok plain=<0|1> acc=<0|1> B=<j>:<t>,… E=<j>:<t>,…` where `plain` is `AJ.Flat.plainCheck`, `acc` says whether the
+    strict model accepts the whole history, `B` (`E`) lists the jobs that began (ended) with the clock at that point.
+    `firstNow` stops at the first event the model rejects: what would happen after it is not listed. -/
+def timingLine (c : Cfg) (evs : List EvB) : String :=
+  let bit := fun (b : Bool) => if b then "1" else "0"
+  let col := fun (P : Nat → StB → Bool) =>
+    ",".intercalate ((List.range c.n).filterMap fun j =>
+      (AJ.Flat.firstNow c (P j) StB.init evs).map fun t => toString j ++ ":" ++ toString t)
+  "ok plain=" ++ bit (AJ.Flat.plainCheck c evs) ++ " acc=" ++ bit (acceptB c StB.init evs).isSome ++
+    " B=" ++ col AJ.Flat.beganP ++ " E=" ++ col AJ.Flat.endedP
 
 def handle (cmd : String) (toks : List String) : String :=
   let kv := kvOf toks
@@ -415,6 +430,10 @@ def handle (cmd : String) (toks : List String) : String :=
         | some l =>
           let mode := (getKV kv "mode").getD "strict"
           replayA c l (mode = "laxtime" || mode = "laxall") (mode = "laxall")
+      else if cmd = "timing" then
+        match items.mapM parseEvB with
+        | none => "bad-request event"
+        | some l => timingLine c (l.map (·.ev))
       else
         match items.mapM parseEvB, (getKV kv "diag").bind parseDiag with
         | some l, some d => replayB c l d
